@@ -104,3 +104,11 @@ package ast
 //@   loop 2 invariant len(str) <= len(old(str)) && str == old(str)[len(old(str)) - len(str):]
 //@   loop 1 invariant !isBytes ==> printable(buf, len(buf))
 //@   loop 2 invariant !isBytes && printable(buf, len(buf)) && -1 <= j && j <= 2
+
+// Read-only helpers on declarations (value receivers; they inspect Descr only).
+//@ func (d Decl) findDescr(descr, cb)
+//@   trusted
+//@   modifies nothing
+//@ func (d Decl) Modes()
+//@   trusted
+//@   modifies nothing
